@@ -5,7 +5,6 @@ import ast
 from fractions import Fraction
 from typing import Any
 
-from sa import ordenum
 from sa.kern import make_evaluator
 from sa.report import Ctx
 from sa.srcmodel import FuncInfo, func_body
@@ -304,25 +303,70 @@ def _walkers(ctx: Ctx) -> None:
                                ite(("lt", i + one, n), j, j + one))},
     }
     found = set()
-    for node in ast.walk(fi.node):
-        if not (isinstance(node, ast.If) and isinstance(
-                node.test, ast.Compare) and isinstance(
-                node.test.left, ast.Name)
-                and node.test.left.id == "edge_weight_format"):
-            continue
-        fmt = repo.const(mod, node.test.comparators[0])
-        okd = len(node.test.ops) == 1 and isinstance(node.test.ops[0], ast.Eq)
-        ctx.ob("D18.2", fi, node, okd,
+    from sa.casesplit import Splitter, describe
+    from sa.pathinline import Path, paths
+    from sa.symterm import c_not
+    fmt_par = fi.params[3] if len(fi.params) > 3 else "edge_weight_format"
+    fmt_par = next((p_ for p_ in fi.params if "format" in p_), fmt_par)
+    all_paths = paths(func_body(fi))
+    ev = make_evaluator(repo, fi)
+    ev.int_transparent = True
+
+    def fmt_of(q: Any) -> tuple[str | None, bool]:
+        """(format constant a path is selected for, selected by ==)."""
+        sel = None
+        eq_ok = True
+        for tst, truth in q.guards:
+            if isinstance(tst, ast.Compare) and len(tst.ops) == 1 and \
+                    isinstance(tst.left, ast.Name) and \
+                    tst.left.id == fmt_par:
+                c = repo.const(mod, tst.comparators[0])
+                if truth and isinstance(c, str):
+                    sel = c
+                    eq_ok = isinstance(tst.ops[0], ast.Eq)
+                elif not truth and isinstance(tst.ops[0], ast.NotEq) and \
+                        isinstance(c, str):
+                    sel = c
+        return sel, eq_ok
+    by_fmt: dict[str, list[Any]] = {}
+    for q in all_paths:
+        f_, eq_ok = fmt_of(q)
+        if f_ is not None and q.ended == "return":
+            by_fmt.setdefault(f_, []).append((q, eq_ok))
+    nenv = Env()
+    for fmt, qs in sorted(by_fmt.items()):
+        q, eq_ok = qs[0]
+        node = next((e.node for e in q.events if e.kind == "return"),
+                    fi.node)
+        ctx.ob("D18.2", fi, node, eq_ok and len(qs) == 1,
                f"the {fmt} reader is selected exactly for "
-               f"EDGE_WEIGHT_FORMAT == {fmt!r}" if okd else
-               f"the {fmt} reader is selected under "
-               f"`{ast.unparse(node.test)}`",
-               construct=f"format dispatch {fmt}")
+               f"EDGE_WEIGHT_FORMAT == {fmt!r}" if eq_ok and len(qs) == 1
+               else f"the {fmt} reader is not selected by one equality "
+               "test", construct=f"format dispatch {fmt}")
+        ret = next((e for e in q.events if e.kind == "return"), None)
+        loops = [e for e in q.events if e.kind == "loop"]
         if fmt == "FULL_MATRIX":
             found.add(fmt)
-            src = ast.unparse(ast.Module(body=node.body, type_ignores=[]))
-            ok = "__read_n_ints(n_cities * n_cities" in src and \
-                ".reshape((n_cities, n_cities))" in src
+            ok = False
+            # the returned matrix: np.array(__read_n_ints(n*n, ..)).reshape(
+            # (n, n)), possibly through a local that is post-processed
+            rv = ret.value if ret is not None else None
+            if isinstance(rv, ast.Name) and rv.id in q.objs:
+                rv = q.objs[rv.id]
+            for c_ in ast.walk(rv) if rv is not None else []:
+                if isinstance(c_, ast.Call) and isinstance(
+                        c_.func, ast.Attribute) and \
+                        c_.func.attr == "reshape" and len(c_.args) == 1:
+                    reads = [r for r in ast.walk(c_.func.value)
+                             if isinstance(r, ast.Call) and ast.unparse(
+                                 r.func).endswith("__read_n_ints")]
+                    try:
+                        shp = ev.expr(nenv, c_.args[0])
+                        cnt = ev.num(nenv, reads[0].args[0]) if len(
+                            reads) == 1 else None
+                        ok = shp == (n, n) and cnt == n * n
+                    except Unsupported:
+                        ok = False
             ctx.ob("D18.2", fi, node, ok,
                    "FULL_MATRIX reads n*n numbers and reshapes them to "
                    "(n, n) row by row", construct="walker FULL_MATRIX",
@@ -331,105 +375,149 @@ def _walkers(ctx: Ctx) -> None:
         if fmt not in spec:
             continue
         found.add(fmt)
-        sp = spec[fmt]
-        ev = make_evaluator(repo, fi)
-        env = Env()
-        count = None
-        loop = None
-        for s in node.body:
-            if isinstance(s, (ast.Assign, ast.AnnAssign)) and isinstance(
-                    s.value, ast.Call) and ast.unparse(
-                    s.value.func).endswith("__read_n_ints"):
-                try:
-                    count = ev.num(env, s.value.args[0])
-                except Unsupported:
-                    count = None
-            elif isinstance(s, (ast.Assign, ast.AnnAssign)) and \
-                    s.value is not None and isinstance(
-                    s.targets[0] if isinstance(s, ast.Assign)
-                    else s.target, ast.Name):
-                try:
-                    env = ev.stmt(env, s)
-                except Unsupported:
-                    pass
-            elif isinstance(s, ast.For):
-                loop = s
-        okc = count == sp["count"]
-        ctx.ob("D18.2", fi, node, okc,
-               f"{fmt}: reads {show(count) if count is not None else '?'} "
-               f"numbers; the format has {show(sp['count'])}",
-               construct=f"walker {fmt} count")
-        start = (env.vars.get("i"), env.vars.get("j"))
-        ctx.ob("D18.2", fi, node, start == sp["start"],
-               f"{fmt}: starts at (i, j) = "
-               f"({show(start[0]) if start[0] is not None else '?'}, "
-               f"{show(start[1]) if start[1] is not None else '?'})",
-               construct=f"walker {fmt} start")
-        if loop is None:
+        spc = spec[fmt]
+        if len(loops) != 1 or not isinstance(loops[0].node, ast.For):
             ctx.ob("D18.2", fi, node, False, f"{fmt}: no loop over the "
                    "numbers", construct=f"walker {fmt} step")
             continue
-        # the body: stores, then the step
-        benv = Env()
-        benv.vars["i"] = i
-        benv.vars["j"] = j
-        stores = []
-        step_stmts = []
-        guard_diag = False
-        for s in loop.body:
-            tgt_sub = isinstance(s, ast.Assign) and any(
-                isinstance(t, ast.Subscript) for t in s.targets)
-            if tgt_sub:
-                stores.append(s)
-            elif isinstance(s, ast.If) and any(
-                    isinstance(x, ast.Assign) and any(
-                        isinstance(t, ast.Subscript) for t in x.targets)
-                    for x in s.body):
-                guard_diag = ast.unparse(s.test).replace(" ", "") in (
-                    "i!=j", "j!=i")
-                stores += [x for x in s.body if isinstance(x, ast.Assign)]
-            else:
-                step_stmts.append(s)
-        try:
-            for s in step_stmts:
-                benv = ev.stmt(benv, s)
-            gi, gj = benv.vars["i"], benv.vars["j"]
-            wi, wj = sp["succ"]()
-            terms = ordenum.ite_cond_terms(gi) + [
-                t for t in ordenum.ite_cond_terms(gj)] + \
-                ordenum.ite_cond_terms(wi)
-            uniq: list[Poly] = []
-            for t in terms:
-                if t not in uniq:
-                    uniq.append(t)
+        le = loops[0]
+        loop = le.node
+        # how many numbers are read: the iterated value, inlined
+        count = None
+        reads = [r for r in ast.walk(le.value) if isinstance(r, ast.Call)
+                 and ast.unparse(r.func).endswith("__read_n_ints")]
+        if len(reads) == 1:
+            try:
+                count = ev.num(nenv, reads[0].args[0])
+            except Unsupported:
+                count = None
+        okc = count == spc["count"]
+        ctx.ob("D18.2", fi, loop, okc,
+               f"{fmt}: reads {show(count) if count is not None else '?'} "
+               f"numbers; the format has {show(spc['count'])}",
+               construct=f"walker {fmt} count")
+        # the two index variables: those used to address the matrix
+        idx_names: list[str] = []
+        for x in ast.walk(loop):
+            if isinstance(x, ast.Subscript) and isinstance(
+                    x.ctx, ast.Store) and isinstance(x.slice, ast.Tuple):
+                for e_ in x.slice.elts:
+                    if isinstance(e_, ast.Name) and \
+                            e_.id not in idx_names:
+                        idx_names.append(e_.id)
+        bq = paths(loop.body, Path(env=dict(le.extra)))
+        # role: the variable that is stepped by one on the path that stays
+        # in the row is `i`, the other `j`
+        roles = None
+        for a_, b_ in ((idx_names + ["?", "?"])[:2],
+                       (idx_names + ["?", "?"])[1::-1]):
+            try:
+                s_i = ev.num(nenv, le.pre[a_]) if a_ in le.pre else None
+                s_j = ev.num(nenv, le.pre[b_]) if b_ in le.pre else None
+            except Unsupported:
+                s_i = s_j = None
+            if (s_i, s_j) == spc["start"]:
+                roles = (a_, b_)
+                break
+        start_ok = roles is not None
+        if roles is None and len(idx_names) == 2 and spc["start"][0] == \
+                spc["start"][1]:
+            roles = (idx_names[0], idx_names[1])
+        ctx.ob("D18.2", fi, loop, start_ok,
+               f"{fmt}: starts at (i, j) = ({show(spc['start'][0])}, "
+               f"{show(spc['start'][1])})" if start_ok else
+               f"{fmt}: the walk does not start at (i, j) = "
+               f"({show(spc['start'][0])}, {show(spc['start'][1])})",
+               construct=f"walker {fmt} start")
+        if roles is None:
+            continue
+        # symmetric start (0, 0): decide the roles by the step
+        cand_roles = [roles] if spc["start"][0] != spc["start"][1] else [
+            roles, roles[::-1]]
+        step_bad: str | None = "not evaluated"
+        stores_ok = False
+        n_cases = 0
+        for ri, rj in cand_roles:
+            benv = Env()
+            benv.vars[ri] = i
+            benv.vars[rj] = j
+            benv.vars[loop.target.id if isinstance(
+                loop.target, ast.Name) else "v"] = Poly.var("v")
+            wi, wj = spc["succ"]()
             bad = None
-            cnt = 0
-            for m in ordenum.enumerate_models(uniq, integer=False):
-                cnt += 1
-                if (m.select(gi), m.select(gj)) != (m.select(wi),
-                                                    m.select(wj)):
-                    bad = m.describe()
-            ctx.count("orderings_enumerated", cnt)
-            ctx.ob("D18.2", fi, loop, bad is None,
-                   f"{fmt}: the step (i, j) -> ({show(gi)[:70]}, "
-                   f"{show(gj)[:70]}) equals the successor of the "
-                   "triangular enumeration" if bad is None else
-                   f"{fmt}: the step differs from the triangular "
-                   f"enumeration's successor for {bad}",
-                   construct=f"walker {fmt} step")
-        except (Unsupported, KeyError) as u:
-            ctx.ob("D18.2", fi, loop, False, f"{fmt}: step not normalised: "
-                   f"{u}", construct=f"walker {fmt} step")
-        # stores: res[j, i] = res[i, j] = v
-        oks = len(stores) == 1 and len(stores[0].targets) == 2 and {
-            ast.unparse(t).replace(" ", "") for t in stores[0].targets
-        } == {"res[j,i]", "res[i,j]"} and isinstance(
-            stores[0].value, ast.Name) and stores[0].value.id == \
-            loop.target.id
-        okd = (guard_diag == sp["diag"])
-        ctx.ob("D18.2", fi, stores[0] if stores else loop, oks and okd,
+            st_ok = True
+            spl = Splitter()
+            try:
+                for w in bq:
+                    facts: list[Any] = []
+                    conds = []
+                    for tst, truth in w.guards:
+                        c = ev.cond(benv, tst)
+                        conds.append(c if truth else c_not(c))
+                    gi = ev.num(benv, w.env[ri]) if ri in w.env else i
+                    gj = ev.num(benv, w.env[rj]) if rj in w.env else j
+                    from sa.symterm import c_and as _c_and
+                    pc = _c_and(*conds) if conds else ("true",)
+                    for fs, (pcv, a1, a2, b1, b2), tr in spl.cases(
+                            (pc, gi, gj, wi, wj), facts):
+                        if pcv != ("true",):
+                            continue
+                        n_cases += 1
+                        if not (spl.equal(a1, b1, fs) and spl.equal(
+                                a2, b2, fs)):
+                            bad = bad or (f"[{describe(tr)[:140]}] the step "
+                                          f"goes to ({show(a1)}, {show(a2)}"
+                                          f"), the enumeration to "
+                                          f"({show(b1)}, {show(b2)})")
+                    # stores of this path
+                    sts = [e for e in w.events if e.kind == "store"]
+                    tg = set()
+                    for e in sts:
+                        try:
+                            tg.add(ev.index(benv, e.value.slice))
+                        except Unsupported:
+                            st_ok = False
+                        if not (isinstance(e.extra, ast.Name)
+                                and isinstance(loop.target, ast.Name)
+                                and e.extra.id == loop.target.id):
+                            st_ok = False
+                    diag_guard = any(
+                        (truth and ev.cond(benv, tst) == c_not(
+                            ("eq", *sorted((i, j), key=lambda p_: repr(
+                                p_.key()))))) for tst, truth in w.guards)
+                    on_diag = any(
+                        (not truth and ev.cond(benv, tst) == c_not(
+                            ("eq", *sorted((i, j), key=lambda p_: repr(
+                                p_.key()))))) for tst, truth in w.guards)
+                    if spc["diag"]:
+                        if on_diag:
+                            st_ok = st_ok and not sts
+                        else:
+                            st_ok = st_ok and diag_guard and tg == {
+                                (i, j), (j, i)}
+                    else:
+                        st_ok = st_ok and tg == {(i, j), (j, i)}
+                    if [e for e in w.events if e.kind != "store"] or \
+                            w.ended is not None:
+                        st_ok = False
+            except (Unsupported, KeyError) as u:
+                bad = f"step not normalised: {u}"
+            if bad is None:
+                step_bad = None
+                stores_ok = st_ok
+                break
+            step_bad = bad
+            stores_ok = st_ok
+        ctx.count("orderings_enumerated", n_cases)
+        ctx.ob("D18.2", fi, loop, step_bad is None,
+               f"{fmt}: on every outcome of its tests the step equals the "
+               "successor of the triangular enumeration"
+               if step_bad is None else
+               f"{fmt}: the step differs from the triangular enumeration's "
+               f"successor: {step_bad}", construct=f"walker {fmt} step")
+        ctx.ob("D18.2", fi, loop, stores_ok,
                f"{fmt}: each number is stored symmetrically at [i, j] and "
-               "[j, i]" + ("; diagonal entries are skipped" if sp["diag"]
+               "[j, i]" + ("; diagonal entries are skipped" if spc["diag"]
                            else ""), construct=f"walker {fmt} stores")
     ctx.count("explicit_formats", len(found))
     ctx.ob("D18.2", fi, fi.node, len(found) >= 4,
